@@ -13,6 +13,8 @@
 -/
 import MajoranaVerif.Proofs.SeqMachine
 import MajoranaVerif.Proofs.Mvp3Cycles
+import MajoranaVerif.Proofs.CycleTrace
+import MajoranaVerif.Proofs.CycleTraceMvp3
 open GoInt Model.Seq Proofs.Seq
 
 namespace Props.C12
@@ -208,5 +210,190 @@ example :
     (Model.Mvp3.runMvp3 { instrs := [.li_ { rd := 5, imm := 7#32 }, .ret_ {}], labels := {} } ⟨{}, 0#32⟩ 10).cycles = 317 ∧
     (Model.Mvp3.runMvp3 { instrs := [.li_ { rd := 5, imm := 7#32 }, .ret_ {}], labels := {} } ⟨{}, 0#32⟩ 10).steps = 2 := by
   decide +kernel
+
+/-! ### value independence (work package C12-VI): the cycle count does not depend on operand values
+
+The *timing trace* of a run (`Model/TimingTrace.lean`, computable) records per started iteration the pc, the instruction,
+the addresses it reads (`MemoryRead`), the addresses it stores to (keys of `MemoryChanges`) and which way the iteration went
+(stopped / `Run` failed / `ret` / register, memory or no write-back), plus how the run ended — no register value, no memory
+byte.  The cycle count of each model is a FUNCTION of the trace and of the memory size (`mvp1_cycles_of_trace`, …): for MVP-1
+the latency table, for MVP-2 additionally the fetch window driven by the recorded pcs, for MVP-3 the real memory-management unit
+run on zeroed data along the recorded addresses (hits, misses, LRU order, evictions, panics never look at data bytes:
+`Proofs/CycleTraceMvp3.lean`, erasure lemmas).  Hence two runs of one program with equal traces — same path, same accessed
+addresses, same halt — on memories of equal size return the same cycle count, whatever registers and memory contain. -/
+
+open Model.Timing in
+/-- MVP-1: the cycle count is `costOfTrace` of the timing trace and the memory size -/
+theorem mvp1_cycles_of_trace (app : App) (a : Arch) (fuel : Nat) :
+    (runMvp1 app a fuel).cycles =
+      costOfTrace mvp1Fetch Gen.Consts.mvp1.cyclesDecode a.ctx.Memory.length
+        (traceSeq Gen.Consts.mvp1.cyclesDecode app fuel a).1 mvp1Fetch.init :=
+  Proofs.CycleTrace.run_cost _ _ app a fuel
+
+open Model.Timing in
+/-- MVP-2: the same with the fetch window folded over the recorded pcs -/
+theorem mvp2_cycles_of_trace (app : App) (a : Arch) (fuel : Nat) :
+    (runMvp2 app a fuel).cycles =
+      costOfTrace mvp2Fetch Gen.Consts.mvp2.cyclesDecode a.ctx.Memory.length
+        (traceSeq Gen.Consts.mvp2.cyclesDecode app fuel a).1 mvp2Fetch.init :=
+  Proofs.CycleTrace.run_cost _ _ app a fuel
+
+open Model.Timing in
+/-- MVP-3: the cycle count is `tcostRun` of the timing trace and the memory size (L1I / L1D hit-miss pattern, LRU order,
+evictions and the final flush recomputed from the recorded pcs and addresses on zeroed caches) -/
+theorem mvp3_cycles_of_trace (app : App) (a : Arch) (fuel : Nat) :
+    (Model.Mvp3.runMvp3 app a fuel).cycles =
+      tcostRun Model.Mmu.mvp3Config Gen.Consts.mvp3.cyclesDecode a.ctx.Memory.length
+        (traceRun3 Model.Mmu.mvp3Config Gen.Consts.mvp3.cyclesDecode app a fuel) :=
+  Proofs.CycleTraceMvp3.run_tcost _ _ app a fuel
+
+/-- **C12, value independence, MVP-1**: for one program and two initial states — any registers, any memory contents of
+the same size — and every fuel: equal timing traces give equal cycle counts. -/
+theorem mvp1_cycles_value_independent (app : App) (a1 a2 : Arch) (fuel : Nat)
+    (hlen : a1.ctx.Memory.length = a2.ctx.Memory.length)
+    (htr : Model.Timing.traceSeq Gen.Consts.mvp1.cyclesDecode app fuel a1 = Model.Timing.traceSeq Gen.Consts.mvp1.cyclesDecode app fuel a2) :
+    (runMvp1 app a1 fuel).cycles = (runMvp1 app a2 fuel).cycles :=
+  Proofs.CycleTrace.run_value_independent _ _ app a1 a2 fuel hlen htr
+
+/-- **C12, value independence, MVP-2** -/
+theorem mvp2_cycles_value_independent (app : App) (a1 a2 : Arch) (fuel : Nat)
+    (hlen : a1.ctx.Memory.length = a2.ctx.Memory.length)
+    (htr : Model.Timing.traceSeq Gen.Consts.mvp2.cyclesDecode app fuel a1 = Model.Timing.traceSeq Gen.Consts.mvp2.cyclesDecode app fuel a2) :
+    (runMvp2 app a1 fuel).cycles = (runMvp2 app a2 fuel).cycles :=
+  Proofs.CycleTrace.run_value_independent _ _ app a1 a2 fuel hlen htr
+
+/-- **C12, value independence, MVP-3**: the contents of the caches differ between the two runs, but the resident line
+addresses and the LRU order evolve identically -/
+theorem mvp3_cycles_value_independent (app : App) (a1 a2 : Arch) (fuel : Nat)
+    (hlen : a1.ctx.Memory.length = a2.ctx.Memory.length)
+    (htr : Model.Timing.traceRun3 Model.Mmu.mvp3Config Gen.Consts.mvp3.cyclesDecode app a1 fuel =
+           Model.Timing.traceRun3 Model.Mmu.mvp3Config Gen.Consts.mvp3.cyclesDecode app a2 fuel) :
+    (Model.Mvp3.runMvp3 app a1 fuel).cycles = (Model.Mvp3.runMvp3 app a2 fuel).cycles :=
+  Proofs.CycleTraceMvp3.run3_value_independent _ _ app a1 a2 fuel hlen htr
+
+/-- load a word, double it, store it next to it, return -/
+def viApp : App :=
+  { instrs := [.lw_ { rd := 6, offset := 0#32, rs := 5 }, .add_ { rd := 7, rs1 := 6, rs2 := 6 },
+               .sw_ { rs := 7, rd := 5, offset := 4#32 }, .ret_ {}], labels := {} }
+/-- two initial states with the same address register but different memory contents and different other registers -/
+def viState1 : Arch := ⟨{ Registers := ⟨[(5, 64#32), (28, 1#32)]⟩, Memory := List.replicate 128 1#8 }, 0#32⟩
+def viState2 : Arch := ⟨{ Registers := ⟨[(5, 64#32), (28, 99#32), (29, 7#32)]⟩, Memory := List.replicate 128 200#8 }, 0#32⟩
+
+/-- Non-vacuity (MVP-1, MVP-2): different register files and memories, different results, equal timing traces -/
+example :
+    Model.Timing.traceSeq Gen.Consts.mvp1.cyclesDecode viApp 10 viState1 = Model.Timing.traceSeq Gen.Consts.mvp1.cyclesDecode viApp 10 viState2 ∧
+    Model.Timing.traceSeq Gen.Consts.mvp2.cyclesDecode viApp 10 viState1 = Model.Timing.traceSeq Gen.Consts.mvp2.cyclesDecode viApp 10 viState2 ∧
+    (runMvp1 viApp viState1 10).final.ctx.Memory ≠ (runMvp1 viApp viState2 10).final.ctx.Memory ∧
+    (runMvp1 viApp viState1 10).halt = some .ret := by
+  decide +kernel
+
+/-- Non-vacuity (MVP-3): the same two states have equal MVP-3 timing traces (one L1D miss, one cached store, flush) -/
+example :
+    Model.Timing.traceRun3 Model.Mmu.mvp3Config Gen.Consts.mvp3.cyclesDecode viApp viState1 10 =
+      Model.Timing.traceRun3 Model.Mmu.mvp3Config Gen.Consts.mvp3.cyclesDecode viApp viState2 10 ∧
+    (Model.Mvp3.runMvp3 viApp viState1 10).final.ctx.Memory ≠ (Model.Mvp3.runMvp3 viApp viState2 10).final.ctx.Memory ∧
+    (Model.Mvp3.runMvp3 viApp viState1 10).halt = some .ret := by
+  decide +kernel
+
+/-- … and a trace DOES distinguish runs whose accessed addresses differ (so equality of traces is a real condition) -/
+example :
+    Model.Timing.traceSeq Gen.Consts.mvp1.cyclesDecode viApp 10 viState1 ≠
+      Model.Timing.traceSeq Gen.Consts.mvp1.cyclesDecode viApp 10 ⟨{ viState1.ctx with Registers := ⟨[(5, 32#32)]⟩ }, 0#32⟩ := by
+  decide +kernel
+
+/-! ### MVP-3, exact: the cycle count is the sum of the per-iteration terms plus the flush -/
+
+/-- the per-iteration costs of a run of MVP-3, in execution order: (fetch, decode / memory read / execute / write-back) -/
+def costTrace3 (cfg : Model.Mmu.Config) (dc : Int) (app : App) : Nat → Model.Mvp3.State → List (Int × StepCost)
+  | 0, _ => []
+  | fuel + 1, s =>
+    match Model.Mvp3.step cfg dc app s with
+    | .halt .offEnd _ _ _ => []
+    | .halt _ _ f c => [(f, c)]
+    | .next s' f c => (f, c) :: costTrace3 cfg dc app fuel s'
+
+/-- what `flush()` adds in state `s`: one `MemoryAccess` per resident L1D line (nothing when it panics) -/
+def flushOf (cfg : Model.Mmu.Config) (s : Model.Mvp3.State) : Int :=
+  match Model.Mmu.flush cfg s.mmu s.arch.ctx.Memory with
+  | .ok (_, fc) => fc
+  | .error _ => 0
+
+/-- the flush cost at the end of the run (0 unless the loop ends by `ret` or by running past the last instruction) -/
+def flushCost3 (cfg : Model.Mmu.Config) (dc : Int) (app : App) : Nat → Model.Mvp3.State → Int
+  | 0, _ => 0
+  | fuel + 1, s =>
+    match Model.Mvp3.step cfg dc app s with
+    | .halt .offEnd s' _ _ => flushOf cfg s'
+    | .halt .ret s' _ _ => flushOf cfg s'
+    | .halt _ _ _ _ => 0
+    | .next s' _ _ => flushCost3 cfg dc app fuel s'
+
+theorem finish_flushOf (cfg : Model.Mmu.Config) (h : Halt) (s : Model.Mvp3.State) (cyc : Int) (n : Nat) :
+    (Model.Mvp3.finish cfg h s cyc n).cycles = cyc + flushOf cfg s := by
+  unfold Model.Mvp3.finish flushOf
+  cases Model.Mmu.flush cfg s.mmu s.arch.ctx.Memory with
+  | error f => simp
+  | ok p => rfl
+
+theorem go3_sum (cfg : Model.Mmu.Config) (dc : Int) (app : App) :
+    ∀ (fuel : Nat) (s : Model.Mvp3.State) (cyc : Int) (n : Nat),
+      (Model.Mvp3.go cfg dc app fuel s cyc n).cycles =
+        cyc + ((costTrace3 cfg dc app fuel s).map (fun p => p.1 + p.2.total)).sum + flushCost3 cfg dc app fuel s := by
+  intro fuel
+  induction fuel with
+  | zero => intro s cyc n; simp [Model.Mvp3.go, costTrace3, flushCost3]
+  | succ k ih =>
+    intro s cyc n
+    unfold Model.Mvp3.go costTrace3 flushCost3
+    cases hs : Model.Mvp3.step cfg dc app s with
+    | next s' f c =>
+      simp only [List.map_cons, List.sum_cons]
+      rw [ih s' _ _]
+      omega
+    | halt h s' f c =>
+      cases h with
+      | offEnd => simp only [List.map_nil, List.sum_nil, finish_flushOf]; omega
+      | ret => simp only [List.map_cons, List.map_nil, List.sum_cons, List.sum_nil, finish_flushOf]; omega
+      | err => simp only [List.map_cons, List.map_nil, List.sum_cons, List.sum_nil]; omega
+      | panic w => simp only [List.map_cons, List.map_nil, List.sum_cons, List.sum_nil]; omega
+
+/-- **MVP-3, exact**: the returned cycle count is the sum, over the executed instructions, of fetch (`L1Access` on an L1I
+hit, `MemoryAccess` on a miss) + decode + memory read (`L1Access`, plus `MemoryAccess` on an L1D miss) + execute (`Cycles()`)
++ write-back (`RegisterAccess`; a store: `L1Access` when all its bytes are cached, else `MemoryAccess`), plus the cost of the
+final `flush()` (one `MemoryAccess` per resident L1D line).  `u` is the unit `NewCPU` builds. -/
+theorem mvp3_exact (app : App) (a : Arch) (fuel : Nat) :
+    ∃ u, Model.Mmu.new Model.Mmu.mvp3Config = .ok u ∧
+      (Model.Mvp3.runMvp3 app a fuel).cycles =
+        ((costTrace3 Model.Mmu.mvp3Config Gen.Consts.mvp3.cyclesDecode app fuel ⟨a, u⟩).map
+          (fun p => p.1 + p.2.decode + p.2.memRead + p.2.execute + p.2.writeBack)).sum +
+        flushCost3 Model.Mmu.mvp3Config Gen.Consts.mvp3.cyclesDecode app fuel ⟨a, u⟩ := by
+  obtain ⟨u, hnew, _⟩ := Proofs.Mvp3.mvp3Config_ok.new
+  refine ⟨u, hnew, ?_⟩
+  unfold Model.Mvp3.runMvp3 Model.Mvp3.run
+  simp only [hnew]
+  rw [go3_sum]
+  simp only [StepCost.total, Int.zero_add]
+  congr 2
+  apply List.map_congr_left
+  intro p _
+  omega
+
+/-- the terms of `mvp3_exact`: in every started iteration the fetch is an `L1Access` or a `MemoryAccess` and the whole
+iteration costs between 1 and fetch miss + decode + L1D miss + slowest execute + store miss (`Proofs.Mvp3Cycles.step_shape`);
+the flush of a state costs one `MemoryAccess` per resident line -/
+theorem flushOf_le (cfg : Model.Mmu.Config) (s : Model.Mvp3.State) :
+    flushOf cfg s = 0 ∨ flushOf cfg s = s.mmu.l1d.lines.length * Gen.Latency.MemoryAccess := by
+  unfold flushOf
+  cases hf : Model.Mmu.flush cfg s.mmu s.arch.ctx.Memory with
+  | error f => exact Or.inl rfl
+  | ok p =>
+    right
+    unfold Model.Mmu.flush LineCache.lines at hf
+    have := Proofs.Mvp3Cycles.flushLines_cost cfg _ _ _ _ _ hf
+    simpa using this
+
+/-- Non-vacuity of `mvp3_exact`: the run `lw; add; sw; ret` above costs
+(309+1+(3+309)+50+1) + (3+1+0+1+1) + (3+1+0+1+3) + (3+1+1) + 309 (one line flushed). -/
+example : (Model.Mvp3.runMvp3 viApp viState1 10).cycles = 673 + 6 + 8 + 5 + 309 := by decide +kernel
 
 end Props.C12
